@@ -36,7 +36,9 @@ TECHNIQUE = ("Normal-form factorisation output = scale x code on the "
 
 
 def lattice(tier):
-  alphas = (None, F(1), F(5, 2), "auto", "auto_po2")
+  # (a constant alpha also as a Python int, the kind a quantizer string such
+  # as 'ternary(alpha=2)' parses to)
+  alphas = (None, F(1), F(5, 2), 2, "auto", "auto_po2")
   for use01, alpha in itertools.product((False, True), alphas):
     bounds = [(None, None)]
     if alpha == "auto_po2":
@@ -53,7 +55,7 @@ def lattice(tier):
     if isinstance(alpha, str) and thr is not None:
       continue   # rejected by the quantizer's own assertion
     yield "ternary", dict(alpha=alpha, threshold=thr)
-  for alpha in (None, F(2), "auto", "auto_po2"):
+  for alpha in (None, F(2), 3, "auto", "auto_po2"):
     yield "stochastic_binary", dict(alpha=alpha)
     yield "stochastic_ternary", dict(alpha=alpha)
 
@@ -688,6 +690,23 @@ def run(rep, repo, tier):
                  "the recorded scale %s is not a single factor" %
                  show(s_nf, 200), loc=loc, instance=cfg, facts=facts)
         continue
+      # a constant alpha IS the scale, whatever kind of number spells it
+      # (without alpha: the class default, 1)
+      a_ = kw.get("alpha")
+      if not isinstance(a_, str):
+        want_s = F(a_) if a_ is not None else None
+        if want_s is None:
+          da = b.obj.attrs.get("default_alpha")
+          try:
+            want_s = F(da) if da is not None else F(1)
+          except (TypeError, ValueError):
+            want_s = None
+        if want_s is not None:
+          rep.check(s_nf.const_value() == want_s, "R5", unit,
+                    "scale-is-not-the-configured-constant",
+                    "%s: the recorded scale is %s, the configured constant "
+                    "is %s" % (cfg, show(s_nf, 120), want_s), loc=loc,
+                    instance=cfg, facts=facts)
       q = f * s_nf.inverse()
       s_atoms = {a for a in s_nf.atoms(deep=False)}
       leftover = [a for a in q.atoms(deep=False) if a in s_atoms]
